@@ -7,12 +7,16 @@ ListsOver(K, n) == {[none |-> FALSE, l |-> s] :
 NoneGiven == [none |-> TRUE, l |-> <<>>]
 \* exhaustive config: duplicate-free lists of <= 3 models over 4 kinds with <= 1 adjustment (27 lists + None)
 MCGivens == ListsOver({"PAdj", "PAdjDict", "CovB", "P1"}, 3) \cup {NoneGiven}
-MCPhases == {"g", "gas", "G", "s", "S", "None"}
+\* the six phases of the quantifier plus two "other phases" that are substrings of / contain 'gas'
+MCPhases == {"g", "gas", "G", "s", "S", "None", "as", "surface"}
 MCSibPhases == {"g", "S"}
 MCAttach == {"CovC"}
 \* behaviour config (replayed into the real classes)
-BehGivens == ListsOver({"PAdj", "PAdjDict", "CovB", "P2C"}, 2) \cup {NoneGiven}
-BehPhases == {"g", "G", "s", "None"}
+\* lists of <= 2, duplicates of a coverage model (two models with the same name_j) allowed
+DupLists(K, n) == {[none |-> FALSE, l |-> s] :
+                     s \in UNION {{s \in [1..m -> K] : OnePAdj(s)} : m \in 0..n}}
+BehGivens == DupLists({"PAdj", "PAdjDict", "CovB", "P2C"}, 2) \cup {NoneGiven}
+BehPhases == {"g", "G", "gas", "s", "S", "None", "as"}
 BehSibPhases == {"gas", "S"}
 BehAttach == {"P1"}
 \* simulation config (longer random lifecycles)
